@@ -2,11 +2,55 @@
 (* Behaviour generator (B1) for Redirect: every terminated chain is printed with the       *)
 (* initial URL, the scripted redirect responses (status + Location text) and the requests  *)
 (* the specification says are sent (canonical host, trusted?, credentials?, method, body,   *)
-(* path).  Menus are chosen by the .cfg: exhaustive for short chains, -simulate for long.   *)
-EXTENDS Redirect, Json
+(* path).  Two kinds of chains are produced by one run:                                     *)
+(*   sid = 0      every chain over the menus of the .cfg (exhaustive, short)                *)
+(*   sid = 1..N   one pseudo-random chain per sample id over the FULL menus, up to           *)
+(*                SampleHops redirects; the choices are a fixed function of (sid, hop,      *)
+(*                Seed), so a run is reproducible from VERIF_SEED                            *)
+(*   sid = -1,-2  a chain of 17 redirects for the fixed limit (16) of the Get/Post helpers  *)
+EXTENDS Redirect, Json, SequencesExt
+
+CONSTANTS NSamples, Seed, SampleHops, ExHops   \* MaxHops >= SampleHops; exhaustive chains stop at ExHops
+VARIABLE sid
+gvars == <<vars, sid>>
+
+H(a, b) == (((a * 7919 + b * 104729 + (Seed % 97) * 1299709) % 1000003) * 2039) % 1000003
+Pick(set, n) == LET q == SetToSeq(set) IN q[(n % Len(q)) + 1]
+
+SampleSc(i) == [init |-> Pick(AllInits, H(i, 1)), method |-> Pick(AllMethods, H(i, 2)),
+                max |-> <<3, 3, 3, 2, 2, 1, 0>>[(H(i, 3) % 7) + 1]]
+SampleLen(i) == LET l == H(i, 4) % (SampleHops + 1) IN IF l = 0 THEN SampleHops ELSE l
+
+\* sid = -1, -2: one chain of 17 redirects against the fixed limit 16 of the Get / Post helpers
+LoopSc(i) == [init |-> "same", method |-> (IF i = -1 THEN "GET" ELSE "POST"), max |-> 16]
+
+GInit ==
+  \/ sid = 0 /\ Init
+  \/ sid \in 1..NSamples /\ InitSc(SampleSc(sid))
+  \/ sid \in {-1, -2} /\ InitSc(LoopSc(sid))
+
+SampleRecv ==
+  /\ phase = "wait"
+  /\ IF Len(hops) < SampleLen(sid)
+       THEN LET k == Len(hops) + 1
+                st == Pick(AllStatuses, H(sid, 10 + k))
+                form == Pick(AllForms, H(sid, 20 + k))
+                tgt == Pick(AllTargets, H(sid, 30 + k))
+            IN RecvRedirectT(st, form, IF form \in HostForms THEN tgt ELSE cur, Trusted)
+       ELSE RecvFinal
+
+GNext == /\ UNCHANGED sid
+         /\ CASE sid = 0 -> Send \/ RecvFinal \/ (Len(hops) < ExHops /\ Redirects)
+              [] sid > 0 -> Send \/ SampleRecv
+              [] sid < 0 -> Send \/ RecvRedirectT(307, "abs", "sub", Trusted)
+
+GSpec == GInit /\ [][GNext]_gvars
+
 Obs == [ init |-> [id |-> sc.init, url |-> "http://" \o SpellTab[sc.init].text \o "/d/r0",
                    host |-> SpellTab[sc.init].canon, method |-> sc.method, max |-> sc.max],
-         hops |-> hops, sent |-> sent, result |-> result ]
+         hops |-> [k \in 1..Len(hops) |-> [status |-> hops[k].status, form |-> hops[k].form, target |-> hops[k].target,
+                                            location |-> Location(hops[k].form, hops[k].target, k)]],
+         sent |-> sent, result |-> result, sid |-> sid ]
 
 Emit == ~Terminal \/ PrintT("BEHAVIOUR " \o ToJson(Obs))
 =============================================================================
